@@ -132,7 +132,7 @@ func allProps() []PropSpec {
 				{Func: "ZZ_C12_H1", Pkg: "pkg/route", Quick: map[string]int{"N": 5}, Thorough: map[string]int{"N": 7}, Covers: []string{"reached-assert", "some-abort"}},
 				{Func: "ZZ_C12_H2", Pkg: "pkg/route", Covers: []string{"reached-assert", "matched"}},
 				{Func: "ZZ_C12_H3", Pkg: "pkg/route", Covers: []string{"reached-assert"}},
-				{Func: "ZZ_C12_H4", Pkg: "pkg/route", Covers: []string{"reached-assert"}, Note: "Any() routes under engine+group middleware for all nine methods; custom NoRoute/NoMethod installed before or after Use"},
+				{Func: "ZZ_C12_H4", Pkg: "pkg/route", Covers: []string{"reached-assert", "caller-slice"}, Note: "Any() routes under engine+group middleware for all nine methods; custom NoRoute/NoMethod installed before or after Use"},
 			},
 			Assumptions: []string{"chains up to N handlers over the seven behaviours of the property; group nesting depth <= 2 below the engine; Engine built without a transport and ServeHTTP called directly"},
 		},
@@ -168,6 +168,7 @@ func allProps() []PropSpec {
 			ID: "C09",
 			Harnesses: []HarnessSpec{
 				{Func: "ZZ_C09_H1", Pkg: "pkg/protocol/http1", Covers: []string{"reached-assert"}, MaxSteps: 4000000},
+				{Func: "ZZ_C09_H5", Pkg: "pkg/protocol/http1", Quick: map[string]int{"OPS": 3}, Thorough: map[string]int{"OPS": 5}, Covers: []string{"reached-assert", "first-connection-ended-in-error"}, MaxSteps: 4000000, Note: "context recycled after an exchange that ended in an I/O error (symbolic fault index), probe on a second connection drawing the same pooled context"},
 				{Func: "ZZ_C09_H3", Pkg: "pkg/protocol", Covers: []string{"reached-assert"}, Note: "type-directed havoc of URI/Args/Cookie/Trailer/RequestHeader/ResponseHeader/Request/Response, then Reset, field-by-field comparison with a fresh object"},
 				{Func: "ZZ_C09_H4", Pkg: "pkg/app", Covers: []string{"reached-assert"}, Note: "same for RequestContext.Reset / ResetWithoutConn"},
 				{Func: "ZZ_C09_H2", Pkg: "pkg/protocol", Covers: []string{"reached-assert", "same-object-reissued"}, Note: "AcquireURI/Cookie/Request/Response after Release: 12 mutators each, pairs"},
@@ -196,6 +197,9 @@ func allProps() []PropSpec {
 				{Func: "ZZ_C10_H3", Pkg: "pkg/protocol/http1", Quick: map[string]int{"M": 3}, Thorough: map[string]int{"M": 4}, Covers: []string{"reached-assert", "connection-reused", "no-free-connection", "stream-left-open"}, Unwind: 5000, MaxSteps: 4000000,
 					GoPolicy: map[string]string{"(*github.com/cloudwego/hertz/pkg/protocol/http1.HostClient).connsCleaner": "skip"},
 					Note: "response streaming: M calls x five response framings x body read or not x stream closed once / twice / left open (later calls then wait and time out); pool invariant after every call"},
+				{Func: "ZZ_C10_H4", Pkg: "pkg/protocol/http1", Covers: []string{"reached-assert", "first-call-timed-out", "first-call-ok"}, Unwind: 5000,
+					GoPolicy: map[string]string{"(*github.com/cloudwego/hertz/pkg/protocol/http1.HostClient).connsCleaner": "skip"},
+					Note: "request timeout budget used up before the write or between write and read (slow peer writes: zz.SlowFor advances the modelled clock and sleeps natively): the unfinished connection is not reused"},
 			},
 			Assumptions: []string{"sequential histories only: M calls one after another against a scripted peer; all goroutine interleavings, the waiter queue under contention, real timeouts and 'returns no later than' clauses are outside this technique", "fault alphabet per exchange: ok keep-alive, ok + Connection: close, close before first byte, close mid-header, close mid-body, dial error, write error, context already cancelled; MaxConns 1..2; MaxConnWaitTimeout = 0; MaxConnDuration 0 or expired"},
 		},
